@@ -41,6 +41,11 @@ var c15Pool = []c15Item{
 	{"splines, single edge (straight spline)", []int{0, 1}, func() []autog.Option {
 		return []autog.Option{autog.WithEdgeRouting(autog.EdgeRoutingSplines), autog.WithNodeFixedSize(10, 6)}
 	}},
+	{"per-node sizes from two size maps (other sizes for the same node names than the ortho item), valign, polyline", []int{0, 1, 0, 2, 1, 3, 0, 3}, func() []autog.Option {
+		return []autog.Option{autog.WithPositioning(autog.PositioningVAlign), autog.WithEdgeRouting(autog.EdgeRoutingPolyline),
+			autog.WithNodeSize(map[string]graph.Size{"n0": {W: 12, H: 4}, "n1": {W: 18, H: 10}, "n2": {W: 2, H: 2}}),
+			autog.WithNodeSize(map[string]graph.Size{"n3": {W: 40, H: 8}, "n2": {W: 22, H: 6}})}
+	}},
 }
 
 func c15Body(it c15Item) func() string {
@@ -58,6 +63,9 @@ func c15Hooks() {
 
 // cap on the schedules explored per scenario (a run that hits it reports exhaustive:false for that scenario)
 var c15MaxSchedules = 40000
+
+// schedules per 3-thread scenario (spent on iterative context bounding; the evidence reports the bound completed)
+var c15TripleBudget = 12000
 
 var c15Solo []string
 
@@ -183,16 +191,22 @@ func evalC15(x *Ctx, in Input) {
 	// what the evidence reports.
 	completed, unbounded, grants := -1, false, 0
 	// first the unbounded search outright: when the scenario is small enough for the budget that is the whole answer
-	bound = 1 << 30
-	explore(nil)
-	grants += len(visited)
-	if !capped {
-		unbounded = true
-	}
 	budget := c15MaxSchedules
-	if capped {
-		capped = false
-		c15MaxSchedules = execs + budget/2 // a second, smaller budget for the bounded iteration
+	if len(in.E) <= 2 {
+		bound = 1 << 30
+		explore(nil)
+		grants += len(visited)
+		if !capped {
+			unbounded = true
+		}
+		if capped {
+			capped = false
+			c15MaxSchedules = execs + budget/2 // a second, smaller budget for the bounded iteration
+		}
+	} else {
+		// three threads with a scheduling point at every step of Layout: the unbounded search does not fit any budget worth
+		// waiting for, so the budget goes to the bounded iteration outright (0, 1, 2, ... preemptions)
+		c15MaxSchedules = c15TripleBudget
 	}
 	for bound = 0; !unbounded; bound++ {
 		cutByBound = false
@@ -215,7 +229,7 @@ func evalC15(x *Ctx, in Input) {
 		x.Hist("preemption-bound-completed", completed)
 		if capped {
 			x.st.DeadlineHit = true
-			x.st.Notes = appendOnce(x.st.Notes, fmt.Sprintf("C15: scenario %v: budget of %d schedules reached; every schedule with <= %d preemptions was explored", in.E, c15MaxSchedules, completed))
+			x.st.Notes = appendOnce(x.st.Notes, fmt.Sprintf("C15: scenario %v: budget of %d schedules reached; every schedule with <= %d preemptions was explored", in.E, execs, completed))
 		}
 	}
 	x.st.Transitions += int64(grants)
@@ -304,6 +318,7 @@ func init() {
 	checks["C15"] = func(tier string) []*Pass {
 		if tier == "thorough" {
 			c15MaxSchedules = 400000
+			c15TripleBudget = 50000
 		}
 		ps := []*Pass{
 			{Name: "pairs", Space: c15Tuples(2), Eval: evalC15, BudgetS: 15,
@@ -311,10 +326,10 @@ func init() {
 		}
 		if tier == "thorough" {
 			ps = append(ps, &Pass{Name: "triples", Space: c15Tuples(3), Eval: evalC15, BudgetS: 20,
-				Bound: "3 threads: every ordered triple from the pool; every interleaving (unbounded preemptions, pruned by state key)"})
+				Bound: "3 threads: every ordered triple from the pool; iterative context bounding: every schedule with <= b preemptions for b = 0, 1, 2, ... within a budget of 50 000 schedules per scenario (the bound completed is reported per scenario)"})
 		} else {
-			ps = append(ps, &Pass{Name: "triples-sample", Space: spaceList([]Input{{E: []int{0, 1, 2}}, {E: []int{3, 4, 5}}, {E: []int{1, 1, 1}}, {E: []int{5, 0, 3}}}), Eval: evalC15, BudgetS: 20,
-				Bound: "3 threads: 4 triples from the pool; every interleaving"})
+			ps = append(ps, &Pass{Name: "triples-sample", Space: spaceList([]Input{{E: []int{0, 1, 2}}, {E: []int{3, 4, 5}}, {E: []int{6, 2, 6}}, {E: []int{5, 0, 3}}}), Eval: evalC15, BudgetS: 20,
+				Bound: "3 threads: 4 triples from the pool; iterative context bounding: every schedule with <= b preemptions for b = 0, 1, 2, ... within a budget of 12 000 schedules per scenario (the bound completed is reported per scenario)"})
 		}
 		return ps
 	}
